@@ -288,6 +288,66 @@ class Result:
 # ---------------------------------------------------------------------------------------------
 # property theorem files (coq/Cxx.v): always recompiled so that Print Assumptions is re-read
 
+CERT_MODULES = ['BridgePaths', 'C02Bridge', 'C03Bridge', 'C13Proofs', 'FactorI', 'FactorU', 'PathGrammarInst', 'PctWf', 'ValidSetInst']
+CERT_RECORD = os.path.join(VERIF, 'coqchk_certs.json')
+
+def coq_deps(name, seen=None):
+    """transitive V.* dependencies of coq/<name>.v (names without prefix), from its Require lines"""
+    seen = set() if seen is None else seen
+    if name in seen:
+        return seen
+    seen.add(name)
+    fn = os.path.join(COQ, name + '.v')
+    if not os.path.exists(fn):
+        return seen
+    src = re.sub(r'\(\*.*?\*\)', '', open(fn).read(), flags=re.S)
+    for m in re.finditer(r'Require\s+(?:Import\s+|Export\s+)?(.*?)\.\s', src, flags=re.S):
+        for tok in m.group(1).split():
+            if tok.startswith('V.'):
+                coq_deps(tok[2:], seen)
+    return seen
+
+def cert_key(mods):
+    h = hashlib.sha256()
+    allm = set()
+    for m in mods:
+        coq_deps(m, allm)
+    for m in sorted(allm):
+        fn = os.path.join(COQ, m + '.v')
+        if os.path.exists(fn):
+            h.update(m.encode()); h.update(open(fn, 'rb').read())
+    return h.hexdigest()[:24]
+
+def coqchk_certs(mods):
+    """coqchk of the certificate modules, content-addressed: a committed record (coqchk_certs.json) or a cached run for exactly these
+    sources is reused; otherwise the (long) run is made now and cached."""
+    if not mods:
+        return {'clean': True, 'how': 'none needed'}
+    out = {'clean': True, 'how': '', 'modules': {}}
+    rec = json.load(open(CERT_RECORD)) if os.path.exists(CERT_RECORD) else {}
+    cdir = os.path.join(CACHE, 'coqchk'); os.makedirs(cdir, exist_ok=True)
+    for m in mods:
+        k = cert_key([m])
+        r = rec.get(m)
+        if r and r.get('key') == k and r.get('clean'):
+            out['modules'][m] = {'key': k, 'from': 'committed record coqchk_certs.json', 'seconds': r.get('seconds')}
+            continue
+        cf = os.path.join(cdir, m + '-' + k + '.json')
+        if os.path.exists(cf):
+            r = json.load(open(cf))
+        else:
+            t0 = time.time()
+            rc, o, e = sh(['coqchk', '-o', '-silent', '-Q', COQ, 'V', 'V.' + m], cwd=COQ, timeout=14000, check=False)
+            txt = o + e
+            cl = bool(rc == 0 and re.search(r'Axioms:\s*<none>', txt) and re.search(r'type-in-type:\s*<none>', txt) and re.search(r'unsafe \(co\)fixpoints:\s*<none>', txt) and re.search(r'positivity is assumed:\s*<none>', txt))
+            r = {'key': k, 'clean': cl, 'seconds': round(time.time() - t0), 'tail': txt[-600:]}
+            json.dump(r, open(cf, 'w'))
+        out['modules'][m] = {'key': k, 'from': 'run / cache', 'seconds': r.get('seconds')}
+        if not r.get('clean'):
+            out['clean'] = False; out['failed'] = m; out['tail'] = r.get('tail')
+    out['how'] = 'coqchk -o -silent V.<module> per certificate module, content-addressed (' + ', '.join('%s:%s' % (m, v['from'].split()[0]) for m, v in out['modules'].items()) + ')'
+    return out
+
 def props_check(R, name, extra_targets=()):
     """Recompile coq/<name>.v (after its dependencies), require every Print Assumptions to be closed.
        Records obligations/discharged in R.cov; returns True when everything checked."""
@@ -317,14 +377,26 @@ def props_check(R, name, extra_targets=()):
                      'closed': closed, 'axiom_reports': axioms, 'log': text[-3000:]}, no_input=True)
     R.cov['checker_cmd'] = (R.cov.get('checker_cmd') or '') + 'make -C /verif/coq %s.vo (full .vo build, Print Assumptions under every theorem); ' % name
     if ok and R.tier == 'thorough':
-        # independent re-check of the compiled property file and everything it depends on
-        rc2, o2, e2 = sh(['coqchk', '-o', '-silent', '-Q', COQ, 'V', 'V.' + name], cwd=COQ, timeout=3000, check=False)
+        # independent re-check (coqchk) of the compiled property file and everything it depends on.  The modules that hold the
+        # reflection certificates (CERT_MODULES) take coqchk 5-25 minutes EACH (it has no VM: every `incl_check r s = true` is
+        # re-evaluated by lazy reduction), so they are re-checked by one separate, content-addressed run (coqchk_certs) and
+        # admitted here; every other module is re-checked now.
+        deps = coq_deps(name)
+        admit = [m for m in CERT_MODULES if m in deps]
+        cmd = ['coqchk', '-o', '-silent', '-Q', COQ, 'V']
+        for m in admit:
+            cmd += ['-admit', 'V.' + m]
+        rc2, o2, e2 = sh(cmd + ['V.' + name], cwd=COQ, timeout=6000, check=False)
         txt = o2 + e2
         clean = rc2 == 0 and re.search(r'Axioms:\s*<none>', txt) and re.search(r'type-in-type:\s*<none>', txt) and re.search(r'unsafe \(co\)fixpoints:\s*<none>', txt) and re.search(r'positivity is assumed:\s*<none>', txt)
-        R.extra['coqchk'] = {'module': 'V.' + name, 'rc': rc2, 'axioms_none': bool(clean)}
-        R.cov['checker_cmd'] += 'coqchk -o -silent -Q /verif/coq V V.%s; ' % name
+        cert = coqchk_certs(admit)
+        R.extra['coqchk'] = {'module': 'V.' + name, 'rc': rc2, 'axioms_none': bool(clean), 'admitted_here_and_checked_separately': admit, 'certificate_modules': cert}
+        R.cov['checker_cmd'] += 'coqchk -o -silent -Q /verif/coq V %s V.%s; certificate modules: %s; ' % (' '.join('-admit V.' + m for m in admit), name, cert.get('how'))
         if not clean:
             R.violation({'kind': 'coqchk does not accept coq/%s.vo or reports axioms / unsafe features' % name, 'output': txt[-2000:]}, no_input=True)
+            ok = False
+        if not cert.get('clean'):
+            R.violation({'kind': 'coqchk does not accept the certificate modules %s' % admit, 'output': str(cert)[-2000:]}, no_input=True)
             ok = False
     R.extra.setdefault('theorems', []).extend(re.findall(r'^\s*(?:Theorem|Corollary)\s+(\w+)', src_nc, flags=re.M))
     return ok
